@@ -354,6 +354,7 @@ fn jets_and_args(b: &Built) -> Vec<(&'static str, Arg)> {
 fn run(ctx: &Ctx, out: &mut Out) {
     let leg = "fields";
     let mut specs = envs::one_deviation_envs();
+    specs.extend(envs::positional_envs());
     if ctx.tier == Tier::Thorough {
         specs.extend(envs::two_deviation_envs());
     }
